@@ -184,8 +184,10 @@ DataKinds  == {"list", "dict", "tuple", "struct"}
 
 \* eq: v == w for the same node of two isomorphic heaps; eqself: v == v; in: v in [w];
 \* inself: w in v; hash: Value.Hash of the Go API; dictkey: {v: 1}; freeze: Value.Freeze
+\* eqx / ltx / sortedx: the node against EVERY node of the isomorphic heap, both ways round (operands of different
+\* shapes: a comparison of two cyclic values need not meet the same pair of nodes at the same depth)
 Ops == << "type", "bool", "len", "dir", "str", "repr", "print", "eq", "eqself", "lt", "sorted",
-          "in", "inself", "hash", "dictkey", "json", "freeze" >>
+          "in", "inself", "hash", "dictkey", "json", "eqx", "ltx", "sortedx", "freeze" >>
 
 (***************************************************************************)
 (* 3. Sources.  Predeclared names every source may use: json, math, time,  *)
